@@ -558,6 +558,23 @@ func c15(c *ctx) {
 			}
 		}
 	}
+	// fragmented text whose fragments end inside a multi-byte sequence, closed by an empty (or tiny)
+	// final continuation: the helpers read these through growing buffers
+	for _, first := range []int{0, 1, 200, 300, 511, 512, 600, 5000} {
+		for _, lead := range [][]byte{{0xe2}, {0xe2, 0x82}, {0xf0, 0x9f, 0x98}, {0xc3}} {
+			for _, last := range [][]byte{{}, {0xac}, {'x'}} {
+				for _, masked := range []bool{true, false} {
+					body := append(bytes.Repeat([]byte{'a'}, first), lead...)
+					in := append(vh.BuildFrame(1, false, 0, masked, [4]byte{1, 2, 3, 4}, body), vh.BuildFrame(0, true, 0, masked, [4]byte{5, 6, 7, 8}, last)...)
+					in3 := append(append(vh.BuildFrame(1, false, 0, masked, [4]byte{1, 2, 3, 4}, body), vh.BuildFrame(0, false, 0, masked, [4]byte{0, 0, 0, 0}, nil)...), vh.BuildFrame(0, true, 0, masked, [4]byte{5, 6, 7, 8}, last)...)
+					for _, e := range entries["frames"] {
+						call(fmt.Sprintf("midrune/%d/%x/%x/%v/%s", first, lead, last, masked, e.name), "frames", e.name, e.f, in, "midrune", false, false, 0)
+						call(fmt.Sprintf("midrune3/%d/%x/%x/%v/%s", first, lead, last, masked, e.name), "frames", e.name, e.f, in3, "midrune", false, false, 0)
+					}
+				}
+			}
+		}
+	}
 	okReq := "GET /x HTTP/1.1\r\nHost: h\r\nUpgrade: websocket\r\nConnection: Upgrade\r\nSec-WebSocket-Version: 13\r\nSec-WebSocket-Key: dGhlIHNhbXBsZSBub25jZQ==\r\n"
 	badLines := []string{"X-Blank: ", "X-Blank:  \t ", "X-Blank:\t", " \t: v", "\t:\t", "Sec-WebSocket-Protocol:  ", "Sec-WebSocket-Extensions: \t", "Host:   ", "Connection:  ", "Upgrade: \t",
 		"", ":", ": v", "NoColon", " : ", "X", "\x00: \x00", "A:" + strings.Repeat(" ", 5000), strings.Repeat("k", 5000) + ": v", "Sec-WebSocket-Key", "Sec-WebSocket-Key:",
